@@ -24,6 +24,9 @@ NPROC = 12
 CASE_TIMEOUT = 120
 
 
+BIG = 3 * 10**7
+
+
 # ---------------- token-level realisation of leaves and keys
 def realize(t):
     import torch
@@ -36,7 +39,11 @@ def realize(t):
         return f"s{t}"
     if k == 3:
         return [t, "x"]
-    return torch.tensor([t, t + 1])
+    # tensor leaves are large-magnitude counters (a step count / byte offset kept as a tensor): successive values differ by far
+    # less than any relative tolerance, so only an EXACT comparison of leaves tells them apart; two shapes / dtypes
+    if (t // 4) % 2 == 0:
+        return torch.tensor([BIG + t, BIG + t + 1])
+    return torch.tensor([float(BIG + t)], dtype=torch.float64)
 
 
 def token(x):
@@ -52,7 +59,7 @@ def token(x):
     if isinstance(x, list):
         return x[0]
     if isinstance(x, torch.Tensor):
-        return int(x[0])
+        return int(x[0]) - BIG
     raise TypeError(type(x))
 
 
@@ -149,7 +156,9 @@ def apply_op(root, o):
             cur[0] = o["tok"] - o["tok"] % 4 + 3          # same object, new content (stays a list token)
         elif isinstance(cur, torch.Tensor):
             t = o["tok"] - o["tok"] % 4 + 4
-            cur.copy_(torch.tensor([t, t + 1]))
+            if realize(t).shape != cur.shape:
+                t += 4
+            cur.copy_(realize(t))
         elif isinstance(cur, dict):
             cur[pykey(o["path"][-1])] = realize(o["tok"])    # the reported dict itself grows in place
         else:
@@ -178,6 +187,12 @@ def gen_cases(rng, tier, drift):
         # persistent workers whose dataset state lives on in the worker; epochs abandoned while prefetched batches are in flight
         cases.append(dict(kind="e2e_p", seed=rng.randint(0, 10**9), W=rng.choice([1, 2, 2]), alias=rng.random() < 0.5, P=rng.choice([1, 2, 3]),
                           takes=[rng.randint(0, 3), rng.randint(1, 4), None], n=rng.randint(6, 9)))
+    for _ in range(n_e2e // 2):
+        # persistent workers over an IterableDataset whose (iterator or dataset) state starts afresh every epoch: few items per
+        # worker, so that a leaf returns, early in a new epoch, to the value it had when the previous (full or abandoned) epoch ended
+        cases.append(dict(kind="e2e_pi", W=rng.choice([1, 2, 2]), sizes=[rng.randint(1, 3) for _ in range(2)], P=rng.choice([1, 2]),
+                          takes=[rng.choice([None, None, 1, 2]), rng.choice([None, 1, 2]), None], where=rng.choice(["iter", "dataset", "both"]),
+                          bs=rng.choice([None, 1])))
     return cases
 
 
@@ -213,6 +228,8 @@ def run_impl(c):
         return run_e2e(c)
     if c["kind"] == "e2e_p":
         return run_e2e_persistent(c)
+    if c["kind"] == "e2e_pi":
+        return run_e2e_persistent_iter(c)
     init, steps = history(c)
     live = build(init)
     mode = c["mode"]
@@ -400,6 +417,96 @@ def run_e2e_persistent(c):
     return dict(oracle="; ".join(fails[:2]) or None, nontrivial=True, key=["e2e_p", c["seed"], W, alias, c["P"], c["takes"]])
 
 
+def run_e2e_persistent_iter(c):
+    """persistent workers + an IterableDataset whose position lives in its iterator (and/or the dataset) and starts afresh at every
+    epoch. Every item names its worker and the position reported right after producing it; after every yielded item, in every epoch,
+    the checkpoint entry of that worker must be exactly that state; the checkpoint taken after the first item of every later epoch
+    is resumed in a fresh loader and must continue with the rest of that epoch."""
+    import torch.utils.data as tud
+    from torchdata.stateful_dataloader import StatefulDataLoader
+    W, sizes, where, bs = c["W"], c["sizes"], c["where"], c["bs"]
+
+    class PlainIt:
+        def __init__(self, ds, w):
+            self.ds, self.w, self.pos, self.warm = ds, w, 0, False
+
+        def __iter__(self):
+            return self
+
+        def __next__(self):
+            if self.pos >= sizes[self.w]:
+                raise StopIteration
+            self.pos += 1
+            self.warm = True
+            self.ds.pos = self.pos
+            return self.w * 1000 + self.pos
+
+    class It(PlainIt):
+        def state_dict(self):
+            return {"k1": self.pos, "k2": self.w, "k3": {"k4": self.warm}}
+
+        def load_state_dict(self, sd):
+            self.pos, self.warm = sd["k1"], sd["k3"]["k4"]
+
+    class DS(tud.IterableDataset):
+        def __init__(self):
+            self.pos = 0
+            self.resume_pos = None
+
+        def __iter__(self):
+            w = tud.get_worker_info().id
+            it = (It if where in ("iter", "both") else PlainIt)(self, w)
+            self.pos = 0
+            if self.resume_pos is not None:
+                it.pos, self.pos, self.resume_pos = self.resume_pos, self.resume_pos, None
+            return it
+
+    if where in ("dataset", "both"):
+        DS.state_dict = lambda self: {"k5": self.pos}
+        DS.load_state_dict = lambda self, sd: setattr(self, "resume_pos", sd["k5"])
+
+    def mk():
+        return StatefulDataLoader(DS(), batch_size=bs, num_workers=W, prefetch_factor=c["P"], snapshot_every_n_steps=1, persistent_workers=True)
+
+    def val(b):
+        return int(b if bs is None else b[0])
+    full = []
+    ref = mk()
+    for b in ref:
+        full.append(val(b))
+    del ref
+    dl = mk()
+    fails = []
+    for e, take in enumerate(c["takes"]):
+        k = 0
+        for b in dl:
+            if take is not None and k >= take:
+                break
+            k += 1
+            v = val(b)
+            w, pos = v // 1000, v % 1000
+            sd = dl.state_dict()
+            ent = sd["_snapshot"]["_worker_snapshots"][f"worker_{w}"]
+            if where in ("iter", "both"):
+                got = ent["fetcher_state"]["dataset_iter_state"]
+                want = {"k1": pos, "k2": w, "k3": {"k4": True}}
+                if got != want:
+                    fails.append(f"epoch {e}, after item {k} (worker {w}): checkpoint holds iterator state {got}, the worker reported {want}")
+            if where in ("dataset", "both"):
+                got = ent["dataset_state"]
+                if got != {"k5": pos}:
+                    fails.append(f"epoch {e}, after item {k} (worker {w}): checkpoint holds dataset state {got}, the worker reported {{'k5': {pos}}}")
+            if e >= 1 and k == 1 and where != "dataset":
+                r = mk()
+                r.load_state_dict(sd)
+                rest = [val(x) for x in r]
+                del r
+                if rest != full[1:]:
+                    fails.append(f"epoch {e}: resuming the checkpoint taken after its first item yields {rest}, the epoch continues {full[1:]}")
+    del dl
+    return dict(oracle="; ".join(fails[:2]) or None, nontrivial=True, key=["e2e_pi", W, sizes, c["P"], c["takes"], where, bs])
+
+
 def model_term(c, r):
     def wstate(rep, order):
         ds, fs = rep
@@ -417,4 +524,6 @@ def model_term(c, r):
 def widen(c, rng):
     if c["kind"] == "direct":
         return [dict(c, seed=c["seed"] + i, alias=True) for i in range(1, 60)]
+    if c["kind"] == "e2e_pi":
+        return [dict(c, sizes=[a, b], takes=t) for a in (1, 2) for b in (1, 3) for t in ([None, None, None], [1, 1, None])]
     return [dict(c, seed=c["seed"] + i) for i in range(1, 10)]
